@@ -36,6 +36,14 @@ Part M (bounded/c10_multi.py): two allow_refs parameters of ONE object driven by
     running inside ``t.param.trigger(...)``; per-parameter form of the same three clauses
     (``C10/multi/...``), built from tick-separated schedules that hold on the unchanged tree.
 
+Part G (bounded/c10_gap.py): the next assignment arrives EXACTLY 0 / 1 / 2 iterations of the loop (token ``S`` =
+    a single ``await asyncio.sleep(0)``) after the previous one, for every kind pair / triple; driver, oracle and
+    clauses of part P.  A failing schedule whose twin (runs of ``S`` replaced by ``T``) fails in the same way is
+    counted in the twin's class, otherwise it forms a class marked ``exactgap=``.
+
+Part RM (bounded/c10_map.py): ``src.rx.map(<coroutine function>)`` -- one awaitable per item, every completion
+    order; the list held must be the map of the latest list in ITEM order (``C10/rxmap/...``).
+
 Part R (reactive expression piping through coroutines)
     shapes  : r.rx.pipe(coro), r.rx.pipe(asyncgen), rx(bind(coro, r)), rx(bind(asyncgen, r))
     history : n root updates r=1..n, optionally read / tick after each, with or without
@@ -53,7 +61,7 @@ import os
 import warnings
 
 from bounded._api import Bounded, REPLAY_HEADER
-from bounded import c10_multi
+from bounded import c10_multi, c10_gap, c10_map
 
 PROP = "C10"
 NPROC = max(2, min(14, (os.cpu_count() or 4) - 2))
@@ -162,6 +170,8 @@ def parse_sched(s):
     for tok in s.split(","):
         if tok == "T":
             evs.append(("T",))
+        elif tok == "S":        # exactly ONE iteration of the loop (part G, bounded/c10_gap.py)
+            evs.append(("S",))
         elif tok[0] == "A":
             evs.append(("A", int(tok[1:])))
         else:
@@ -269,6 +279,8 @@ def run_param_case(kinds, events):
                 f = futs[(ev[1], ev[2])]
                 if not f.done():        # a cancelled task cancels the future it awaits
                     f.set_result(("r", ev[1], ev[2]))
+            elif ev[0] == "S":
+                await asyncio.sleep(0)      # exactly one iteration of the loop
             else:
                 await tick()
         await tick()
@@ -301,7 +313,7 @@ def check_param(kinds, events, final, obs):
         if ev[0] == "A":
             cur = ev[1]
             started[cur] = False
-        elif ev[0] == "T" and cur is not None:
+        elif ev[0] in ("T", "S") and cur is not None:       # at least one loop iteration before the next assignment
             started[cur] = True
     stale_seen = False
     for (G, val) in obs:
@@ -419,7 +431,8 @@ CUR = contextvars.ContextVar('assignment', default=None)   # copied by the task 
 
 KINDS = KINDS_LIT      # c coroutine function, g async generator function (2 yields), v plain value,
                        # C / G: the SAME function object as the most recent earlier c / g assignment
-SCHED = SCHED_LIT      # A<i> assignment i, R<i>.<k> complete future k of assignment i, T run loop until idle
+SCHED = SCHED_LIT      # A<i> assignment i, R<i>.<k> complete future k of assignment i, T run loop until idle,
+                       # S exactly ONE iteration of the loop (a single `await asyncio.sleep(0)`)
 CLAUSE = CLAUSE_LIT
 
 class Tp(param.Parameterized):
@@ -450,6 +463,8 @@ def run():
         for tok in SCHED.split(','):
             if tok == 'T':
                 await tick()
+            elif tok == 'S':
+                await asyncio.sleep(0)
             elif tok[0] == 'A':
                 i = int(tok[1:]); k = KINDS[i]; state['G'] = i; CUR.set(i)
                 if k == 'v':
@@ -801,7 +816,8 @@ def run(tier, seed):
               "R: shape in {r.rx.pipe(coro), r.rx.pipe(asyncgen), rx(bind(coro,r)), "
               "rx(bind(asyncgen,r))} x n root updates x {read after update} x {tick after update} "
               "x {.rx.watch} x {tick between completions} x every completion order of the pending "
-              "futures; distinct = configuration + order.  " + c10_multi.RULE),
+              "futures; distinct = configuration + order.  " + c10_multi.RULE + ".  " + c10_gap.RULE
+              + ".  " + c10_map.RULE),
         bound=("P: n<=%d assignments; all 2^(e-1) tick placements for words of e<=%s events, five "
                "tick modes (all/none/burst/after-A/after-R) above; generator futures out of order: "
                "%s; sequences with a shared function object: all of length <=%d%s, all tick "
@@ -810,7 +826,8 @@ def run(tier, seed):
                   "n<=3, five tick modes" if thorough else "n<=2, five tick modes",
                   3, " and those of length 4 with at most one generator assignment" if thorough else "",
                   "8 (n<=3) / 6 (n=4)" if thorough else "6",
-                  rx_n, 2520 if thorough else 90) + ".  " + c10_multi.bound_text(tier)))
+                  rx_n, 2520 if thorough else 90) + ".  " + c10_multi.bound_text(tier)
+               + ".  " + c10_gap.bound_text(tier) + ".  " + c10_map.bound_text(tier)))
 
     tasks = []
     for n in range(1, nmax + 1):
@@ -848,16 +865,23 @@ def run(tier, seed):
     # part M: two parameters of one object / plain value assigned by a handler (bounded/c10_multi.py)
     for a in c10_multi.tasks(tier, seed):
         tasks.append(("M", a))
+    # part G: exact gaps (0 / 1 / 2 loop iterations) between consecutive assignments (bounded/c10_gap.py)
+    for a in c10_gap.tasks(tier, seed):
+        tasks.append(("G", a))
+    # part RM: .rx.map(<coroutine function>) under permuted completion orders (bounded/c10_map.py)
+    for a in c10_map.tasks(tier, seed):
+        tasks.append(("RM", a))
 
     ctx = mp.get_context("fork")
     with ProcessPoolExecutor(max_workers=NPROC, mp_context=ctx) as ex:
-        fns = {"P": _param_task, "R": _rx_task, "M": c10_multi.task}
+        fns = {"P": _param_task, "R": _rx_task, "M": c10_multi.task, "G": c10_gap.task, "RM": c10_map.task}
         futs = [ex.submit(fns[kind], a) for kind, a in tasks]
         results = [f.result() for f in futs]
 
     pclasses = {}
     rclasses = {}
     mclasses = {}
+    rmclasses = {}
     errs = left = trunc = 0
     exhaustive = thorough      # quick samples the schedules of the longer sequences of part M
     for (kind, a), r in zip(tasks, results):
@@ -870,10 +894,10 @@ def run(tier, seed):
         left += r["left"]
         for smp in r["samples"]:
             B.sample(smp, limit=8)
-        if kind == "R" and r["truncated"]:
+        if kind in ("R", "RM") and r["truncated"]:
             trunc += r["truncated"]
             exhaustive = False
-        tgt = {"P": pclasses, "R": rclasses, "M": mclasses}[kind]
+        tgt = {"P": pclasses, "R": rclasses, "M": mclasses, "G": pclasses, "RM": rmclasses}[kind]
         for ck, ent in r["classes"].items():
             cur = tgt.get(ck)
             if cur is None:
@@ -907,6 +931,13 @@ def run(tier, seed):
         B.violation(clause, witness, detail="%s; %d failing schedules in this class" % (detail, cnt),
                     replay=c10_multi.replay(assigns, how, size[3], clause, witness))
         B._seen[(clause, witness)]["count"] = cnt
+    for ck in sorted(rmclasses):
+        size, detail, cnt, cfg = rmclasses[ck]
+        clause = ck[0]
+        witness = "%s %s" % (" ".join(ck[1:]), size[-1])
+        B.violation(clause, witness, detail="%s; %d failing schedules in this class" % (detail, cnt),
+                    replay=c10_map.replay(cfg, clause, " ".join(ck[1:]), witness))
+        B._seen[(clause, witness)]["count"] = cnt
     for v in B.violations:      # the replays run against the tree under check (default /repo)
         if v.get("replay"):
             v["replay"] = v["replay"].replace(
@@ -916,7 +947,7 @@ def run(tier, seed):
            "shutdown_asyncgens; messages handed to the loop exception handler: %d; tasks still "
            "pending at the end of a case (cancelled by the driver): %d" % (errs, left))
     if trunc:
-        B.note("R: %d completion orders skipped by the per-configuration cap (evenly spaced "
+        B.note("R / RM: %d completion orders skipped by the per-configuration cap (evenly spaced "
                "subset kept)" % trunc)
     B.note("not reached: re-evaluation of a parameter reference through its own dependencies "
            "(bind(coro, other.param.x) assigned to a parameter) is only exercised through the "
